@@ -71,7 +71,7 @@ def make(cls, max_iter, seed, variant):
         sigma = [1.0, 0.01, 1.0][variant % 3]
         tau = 1 / (sigma * L)
         theta = [1, 1, 1, 0, 0.5, 0][variant % 6]       # user-supplied extrapolation factor (Arrow-Hurwicz for 0)
-        if (variant // 6) % 2 == 0:
+        if variant % 2 == 0:
             # data term through the dual, sparsity through the primal prox
             a = alg.PrimalDualHybridGradient(prox.L2Reg([n], 1, y=-y), prox.L1Reg([n], lam), lambda v: A @ v, lambda v: A.conj().T @ v,
                                              x, u, tau, sigma, theta=theta, max_iter=max_iter, tol=0)
